@@ -162,15 +162,867 @@ theorem splitLoop_pos (types : List Scalar) (hend : 8 < natEnd types 0) : 0 < sp
     rw [alignUp_add_size]
     have h0 : alignUp 0 s.size = 0 := by
       rcases size_cases s with h | h | h | h <;> rw [h] <;> unfold alignUp <;> omega
-    rw [h0]
+    rw [h0, Nat.zero_add]
     have := size_le8 s
-    by_cases h1 : 0 + s.size < 8
+    by_cases h1 : s.size < 8
     · simp only [h1, if_true]
-      have hend' : 8 < natEnd r (0 + s.size) := by simpa [natEnd, h0] using hend
-      obtain ⟨k, hk, _⟩ := splitLoop_spec r (0 + s.size) 1 h1 hend'
+      have hend' : 8 < natEnd r s.size := by simpa [natEnd, h0] using hend
+      obtain ⟨k, hk, _⟩ := splitLoop_spec r s.size (0 + 1) h1 hend'
       omega
     · simp only [h1, if_false]
-      have : ¬ 8 < 0 + s.size := by omega
+      have : ¬ 8 < s.size := by omega
       simp [this]
+
+/-! ## more layout facts -/
+
+theorem le_alignUp (x a : Nat) (ha : 0 < a) : x ≤ alignUp x a := by
+  unfold alignUp
+  have := Nat.lt_div_mul_add (a := x + a - 1) ha
+  omega
+
+theorem maxAlign_cases (l : List Scalar) : maxAlign l = 1 ∨ maxAlign l = 2 ∨ maxAlign l = 4 ∨ maxAlign l = 8 := by
+  induction l with
+  | nil => simp [maxAlign]
+  | cons s r ih =>
+    simp only [maxAlign]
+    rcases size_cases s with h | h | h | h <;> rcases ih with h' | h' | h' | h' <;> rw [h, h'] <;> simp
+
+theorem natLayout_append (a b : List Scalar) (c : Nat) :
+    natLayout (a ++ b) c = natLayout a c ++ natLayout b (natEnd a c) := by
+  induction a generalizing c with
+  | nil => simp [natLayout, natEnd]
+  | cons s r ih => simp [natLayout, natEnd, ih]
+
+theorem natEnd_append (a b : List Scalar) (c : Nat) : natEnd (a ++ b) c = natEnd b (natEnd a c) := by
+  induction a generalizing c with
+  | nil => simp [natEnd]
+  | cons s r ih => simp [natEnd, ih]
+
+/-! ## eightbyte classes -/
+
+def clsList : List Scalar → Class
+  | [] => .noClass
+  | s :: r => merge (clsOf s) (clsList r)
+
+theorem merge_assoc (a b c : Class) : merge (merge a b) c = merge a (merge b c) := by
+  cases a <;> cases b <;> cases c <;> rfl
+
+theorem merge_noClass_right (a : Class) : merge a .noClass = a := by cases a <;> rfl
+
+theorem ebClass_append (a b : List Elem) (k : Nat) : ebClass (a ++ b) k = merge (ebClass a k) (ebClass b k) := by
+  induction a with
+  | nil => simp [ebClass, merge]
+  | cons e r ih =>
+    simp only [List.cons_append, ebClass]
+    split
+    · rw [ih, merge_assoc]
+    · exact ih
+
+theorem ebClass_in (l : List Elem) (k : Nat) (h : ∀ e ∈ l, e.1 / 8 = k) : ebClass l k = clsList (l.map (·.2)) := by
+  induction l with
+  | nil => simp [ebClass, clsList]
+  | cons e r ih =>
+    have he := h e (by simp)
+    simp only [ebClass, he, if_true, List.map_cons, clsList]
+    rw [ih (fun x hx => h x (by simp [hx]))]
+
+theorem ebClass_out (l : List Elem) (k : Nat) (h : ∀ e ∈ l, e.1 / 8 ≠ k) : ebClass l k = .noClass := by
+  induction l with
+  | nil => simp [ebClass]
+  | cons e r ih =>
+    have he := h e (by simp)
+    simp only [ebClass, he, if_false]
+    exact ih (fun x hx => h x (by simp [hx]))
+
+theorem clsOf_ne_noClass (s : Scalar) : clsOf s ≠ .noClass := by cases s <;> simp [clsOf, Scalar.isSSE]
+
+theorem merge_eq_sse (s : Scalar) (x : Class) (h : merge (clsOf s) x = .sse) :
+    s.isSSE = true ∧ (x = .sse ∨ x = .noClass) := by
+  cases s <;> cases x <;> simp_all [clsOf, Scalar.isSSE, merge]
+
+theorem clsList_cons_ne_noClass (s : Scalar) (r : List Scalar) : clsList (s :: r) ≠ .noClass := by
+  simp only [clsList]
+  cases s <;> cases clsList r <;> simp [clsOf, Scalar.isSSE, merge]
+
+theorem isSSE_size (s : Scalar) (h : s.isSSE = true) : 4 ≤ s.size := by cases s <;> simp_all [Scalar.isSSE, Scalar.size]
+
+/-- a list of ≥ 2 scalars that fits into one eightbyte and is all SSE is exactly `[float, float]` -/
+theorem fit8_allSSE (l : List Scalar) (hfit : natEnd l 0 ≤ 8) (hlen : 2 ≤ l.length) (hcls : clsList l = .sse) :
+    l = [.f32, .f32] := by
+  match l, hlen with
+  | [a, b], _ =>
+    revert hfit hcls
+    cases a <;> cases b <;> decide
+  | a :: b :: c :: r, _ =>
+    exfalso
+    simp only [clsList] at hcls
+    obtain ⟨ha, hx⟩ := merge_eq_sse a _ hcls
+    have hb : merge (clsOf b) (merge (clsOf c) (clsList r)) = .sse := by
+      rcases hx with h | h
+      · exact h
+      · exact absurd h (clsList_cons_ne_noClass b (c :: r))
+    obtain ⟨hb', hy⟩ := merge_eq_sse b _ hb
+    have hc : merge (clsOf c) (clsList r) = .sse := by
+      rcases hy with h | h
+      · exact h
+      · exact absurd h (clsList_cons_ne_noClass c r)
+    obtain ⟨hc', _⟩ := merge_eq_sse c _ hc
+    have h1 := isSSE_size a ha
+    have h2 := isSSE_size b hb'
+    have h3 := isSSE_size c hc'
+    simp only [natEnd] at hfit
+    have g1 := natEnd_ge r (alignUp (alignUp (alignUp 0 a.size + a.size) b.size + b.size) c.size + c.size)
+    have g2 := alignUp_ge (alignUp (alignUp 0 a.size + a.size) b.size + b.size) c
+    have g3 := alignUp_ge (alignUp 0 a.size + a.size) b
+    omega
+
+theorem regTy_isSSE (s : Scalar) : s.regTy.isSSE = s.isSSE := by cases s <;> rfl
+theorem regTy_bytes (s : Scalar) : s.regTy.bytes = s.size := by cases s <;> rfl
+theorem clsOf_sse_iff (s : Scalar) : decide (clsOf s = .sse) = s.isSSE := by cases s <;> rfl
+
+/-! ## the two halves chosen by `subType` -/
+
+theorem natLayout_end_le (l : List Scalar) (c : Nat) (e : Elem) (he : e ∈ natLayout l c) : e.1 + e.2.size ≤ natEnd l c :=
+  (natLayout_bounds l c e he).2
+
+theorem subType_single (al : Nat) (s : Scalar) (left : Bool) : subType al [s] left = s.regTy := rfl
+theorem subType_ff (al : Nat) (left : Bool) : subType al [.f32, .f32] left = .v2f32 := by
+  simp [subType]
+
+/-- left half: a non-empty list that fits into the first eightbyte -/
+theorem subType_left (al : Nat) (L : List Scalar) (hne : L ≠ []) (hfit : natEnd L 0 ≤ 8) :
+    regCls (subType al L true) = clsList L ∧ (subType al L true).bytes ≤ 8 ∧
+    (∀ e ∈ natLayout L 0, e.1 + e.2.size ≤ (subType al L true).bytes) ∧
+    ((subType al L true).allocSize = 8 ∨ ∃ s, L = [s]) := by
+  match L, hne with
+  | [s], _ =>
+    rw [subType_single]
+    refine ⟨?_, ?_, ?_, Or.inr ⟨s, rfl⟩⟩
+    · cases s <;> rfl
+    · cases s <;> decide
+    · intro e he
+      have := natLayout_end_le [s] 0 e he
+      simp only [regTy_bytes]
+      have h0 : natEnd [s] 0 = s.size := by
+        simp only [natEnd]
+        rcases size_cases s with h | h | h | h <;> rw [h] <;> unfold alignUp <;> omega
+      omega
+  | a :: b :: r, _ =>
+    by_cases hff : a :: b :: r = [.f32, .f32]
+    · rw [hff, subType_ff]
+      refine ⟨by decide, by decide, ?_, Or.inl (by decide)⟩
+      intro e he
+      revert e; decide
+    · have hst : subType al (a :: b :: r) true = .int 8 := by
+        simp only [subType, hff, if_false, if_true]
+      rw [hst]
+      refine ⟨?_, by decide, ?_, Or.inl (by decide)⟩
+      · have h1 : clsList (a :: b :: r) ≠ .sse := fun h => hff (fit8_allSSE _ hfit (by simp) h)
+        have h2 := clsList_cons_ne_noClass a (b :: r)
+        cases hc : clsList (a :: b :: r) <;> simp_all [regCls, RegTy.isSSE]
+      · intro e he
+        have := natLayout_end_le _ 0 e he
+        simp only [RegTy.bytes]; omega
+
+theorem alignUp_le_of_le8 (x al : Nat) (hx : x ≤ 8) (hal : al = 1 ∨ al = 2 ∨ al = 4 ∨ al = 8) : alignUp x al ≤ 8 := by
+  rcases hal with h | h | h | h <;> rw [h] <;> unfold alignUp <;> omega
+
+/-- right half: a non-empty list that, laid out from 0, fits into one eightbyte -/
+theorem subType_right (al : Nat) (hal : al = 1 ∨ al = 2 ∨ al = 4 ∨ al = 8) (R : List Scalar) (hne : R ≠ [])
+    (hfit : natEnd R 0 ≤ 8) :
+    regCls (subType al R false) = clsList R ∧ (subType al R false).bytes ≤ 8 ∧
+    (∀ e ∈ natLayout R 0, e.1 + e.2.size ≤ (subType al R false).bytes) ∧
+    ((subType al R false).abiAlign = 1 ∨ (subType al R false).abiAlign = 2 ∨ (subType al R false).abiAlign = 4 ∨
+      (subType al R false).abiAlign = 8) := by
+  match R, hne with
+  | [s], _ =>
+    rw [subType_single]
+    refine ⟨?_, ?_, ?_, ?_⟩
+    · cases s <;> rfl
+    · cases s <;> decide
+    · intro e he
+      have := natLayout_end_le [s] 0 e he
+      simp only [regTy_bytes]
+      have h0 : natEnd [s] 0 = s.size := by
+        simp only [natEnd]
+        rcases size_cases s with h | h | h | h <;> rw [h] <;> unfold alignUp <;> omega
+      omega
+    · cases s <;> decide
+  | a :: b :: r, _ =>
+    by_cases hff : a :: b :: r = [.f32, .f32]
+    · rw [hff, subType_ff]
+      refine ⟨by decide, by decide, ?_, by decide⟩
+      intro e he
+      revert e; decide
+    · have hst : subType al (a :: b :: r) false = .int (alignUp (natEnd (a :: b :: r) 0) al) := by
+        simp only [subType, hff, if_false]
+        rw [subFold_eq_natEnd]
+        simp
+      rw [hst]
+      have hb := alignUp_le_of_le8 _ al hfit hal
+      have hpos : 0 < al := by omega
+      have hge := le_alignUp (natEnd (a :: b :: r) 0) al hpos
+      refine ⟨?_, by simpa [RegTy.bytes] using hb, ?_, ?_⟩
+      · have h1 : clsList (a :: b :: r) ≠ .sse := fun h => hff (fit8_allSSE _ hfit (by simp) h)
+        have h2 := clsList_cons_ne_noClass a (b :: r)
+        cases hc : clsList (a :: b :: r) <;> simp_all [regCls, RegTy.isSSE]
+      · intro e he
+        have := natLayout_end_le _ 0 e he
+        simp only [RegTy.bytes]; omega
+      · simp only [RegTy.abiAlign]
+        split
+        · simp
+        · split
+          · simp
+          · split <;> simp
+
+theorem alignUp8 (a : Nat) (ha : a = 1 ∨ a = 2 ∨ a = 4 ∨ a = 8) : alignUp 8 a = 8 := by
+  rcases ha with h | h | h | h <;> rw [h] <;> decide
+
+theorem alignUp_add8' (x al : Nat) (hal : al = 1 ∨ al = 2 ∨ al = 4 ∨ al = 8) : alignUp (x + 8) al = alignUp x al + 8 := by
+  rcases hal with h | h | h | h <;> rw [h] <;> unfold alignUp <;> omega
+
+/-! ## soundness of the classifier on naturally laid out lists -/
+
+theorem regImage_two (size al : Nat) (types : List Scalar) (elems : List Elem) (h8 : 8 < size) (h16 : size ≤ 16) :
+    regImage ⟨size, al, types, elems⟩ =
+      .regs [(ebClass elems 0, 0), (ebClass elems 1, 8)] := by
+  have h2 : (size + 7) / 8 = 2 := by omega
+  have hr : List.range 2 = [0, 1] := by decide
+  simp only [regImage, classifyAgg]
+  rw [if_neg (by omega), if_neg (by omega), h2, hr]
+  simp [imageOfClasses]
+
+theorem regImage_one (size al : Nat) (types : List Scalar) (elems : List Elem) (h0 : size ≠ 0) (h8 : size ≤ 8) :
+    regImage ⟨size, al, types, elems⟩ = .regs [(ebClass elems 0, 0)] := by
+  have h2 : (size + 7) / 8 = 1 := by omega
+  have hr : List.range 1 = [0] := by decide
+  simp only [regImage, classifyAgg]
+  rw [if_neg h0, if_neg (by omega), h2, hr]
+  simp [imageOfClasses]
+
+/-- the general two-eightbyte branch (`splitLoop` + `subType`), for EVERY naturally laid out scalar list -/
+theorem splitClassify_sound (types : List Scalar) (size al : Nat)
+    (hal : al = maxAlign types) (hsz : size = alignUp (natEnd types 0) al) (h8 : 8 < size) (h16 : size ≤ 16) :
+    Sound (splitClassify al types) ⟨size, al, types, natLayout types 0⟩ := by
+  have halc : al = 1 ∨ al = 2 ∨ al = 4 ∨ al = 8 := hal ▸ maxAlign_cases types
+  have hpos : 0 < al := by omega
+  have hend : 8 < natEnd types 0 := by
+    by_cases h : natEnd types 0 ≤ 8
+    · have := alignUp_le_of_le8 _ al h halc; omega
+    · omega
+  have hend16 : natEnd types 0 ≤ 16 := by have := le_alignUp (natEnd types 0) al hpos; omega
+  obtain ⟨k, hk, hlen, hle, hlay, he, hne⟩ := splitLoop_spec types 0 0 (by omega) hend
+  have kpos := splitLoop_pos types hend
+  rw [hk] at kpos
+  have hidx : splitLoop types 0 0 = k := by omega
+  have hLne : types.take k ≠ [] := by
+    intro h
+    have h' := congrArg List.length h
+    rw [List.length_take] at h'
+    simp only [List.length_nil] at h'
+    omega
+  -- the right half, seen from offset 0
+  have hR8 : natEnd (types.drop k) 8 = natEnd (types.drop k) 0 + 8 := by
+    have := natEnd_shift8 (types.drop k) 0; simpa using this
+  have hRlay : natLayout (types.drop k) 8 = shift 8 (natLayout (types.drop k) 0) := by
+    have := natLayout_shift8 (types.drop k) 0; simpa using this
+  have hRfit : natEnd (types.drop k) 0 ≤ 8 := by omega
+  have hsize : size = alignUp (natEnd (types.drop k) 0) al + 8 := by
+    rw [hsz, he, hR8, alignUp_add8' _ _ halc]
+  obtain ⟨l1, l2, l3, l4⟩ := subType_left al (types.take k) hLne hle
+  obtain ⟨r1, r2, r3, r4⟩ := subType_right al halc (types.drop k) hne hRfit
+  -- the second half is loaded from byte 8
+  have hoff : off2 (subType al (types.take k) true) (subType al (types.drop k) false) = 8 := by
+    rcases l4 with h | ⟨s, hs⟩
+    · unfold off2; rw [h]; exact alignUp8 _ r4
+    · -- a single small scalar on the left: the right half is a single 8-byte scalar
+      have happ : natLayout types 0 = natLayout (types.take k) 0 ++ natLayout (types.drop k) (natEnd (types.take k) 0) := by
+        have := natLayout_append (types.take k) (types.drop k) 0
+        rwa [List.take_append_drop] at this
+      have hEapp : natEnd types 0 = natEnd (types.drop k) (natEnd (types.take k) 0) := by
+        have := natEnd_append (types.take k) (types.drop k) 0
+        rwa [List.take_append_drop] at this
+      rw [hlay] at happ
+      have hcancel := List.append_cancel_left happ
+      rw [hs] at hcancel hle ⊢
+      rw [subType_single]
+      have hs0 : natEnd [s] 0 = s.size := by
+        simp only [natEnd]
+        rcases size_cases s with h | h | h | h <;> rw [h] <;> unfold alignUp <;> omega
+      rw [hs0] at hcancel
+      obtain ⟨x, R', hR⟩ := List.exists_cons_of_ne_nil hne
+      rw [hR] at hcancel hRfit r4 ⊢
+      have hx : alignUp 8 x.size = alignUp s.size x.size := by
+        have := congrArg (fun l => (l.map (·.1)).head?) hcancel
+        simpa [natLayout] using this
+      by_cases hs8 : s.size = 8
+      · have : s.regTy.allocSize = 8 := by cases s <;> simp_all [Scalar.size] <;> decide
+        unfold off2; rw [this]; exact alignUp8 _ r4
+      · -- alignUp 8 x.size = alignUp s.size x.size forces x.size = 8
+        have hx8 : x.size = 8 := by
+          have := size_le8 s
+          rcases size_cases s with h | h | h | h <;> rcases size_cases x with h' | h' | h' | h' <;>
+            rw [h, h'] at hx <;> unfold alignUp at hx <;> omega
+        have hR'nil : R' = [] := by
+          cases R' with
+          | nil => rfl
+          | cons y R'' =>
+            exfalso
+            simp only [natEnd] at hRfit
+            have := natEnd_ge R'' (alignUp (alignUp 0 x.size + x.size) y.size + y.size)
+            have := alignUp_ge (alignUp 0 x.size + x.size) y
+            have := size_pos y
+            have := alignUp_ge 0 x
+            omega
+        rw [hR'nil, subType_single]
+        cases s <;> cases x <;> simp_all [Scalar.size] <;> decide
+  have hview : (⟨size, al, types, natLayout types 0⟩ : View).elems = natLayout types 0 := rfl
+  -- classes of the two eightbytes
+  have hL0 : ∀ e ∈ natLayout (types.take k) 0, e.1 / 8 = 0 := by
+    intro e he'
+    have := natLayout_bounds _ 0 e he'
+    have := size_pos e.2
+    omega
+  have hR1 : ∀ e ∈ natLayout (types.drop k) 8, e.1 / 8 = 1 := by
+    intro e he'
+    have := natLayout_bounds _ 8 e he'
+    have := size_pos e.2
+    omega
+  have hc0 : ebClass (natLayout types 0) 0 = clsList (types.take k) := by
+    rw [hlay, ebClass_append, ebClass_in _ 0 hL0, natLayout_types,
+      ebClass_out _ 0 (fun e he' => by have := hR1 e he'; omega), merge_noClass_right]
+  have hc1 : ebClass (natLayout types 0) 1 = clsList (types.drop k) := by
+    rw [hlay, ebClass_append, ebClass_in _ 1 hR1, natLayout_types,
+      ebClass_out _ 1 (fun e he' => by have := hL0 e he'; omega)]
+    simp [merge]
+  unfold splitClassify
+  rw [hidx]
+  refine ⟨?_, ?_, ?_⟩
+  · rw [regImage_two _ _ _ _ h8 h16, hc0, hc1]
+    simp only [kindImage, kindRegs, List.map_cons, List.map_nil, hoff, l1, r1]
+  · intro r hr
+    simp only [kindRegs, List.mem_cons, List.mem_nil_iff, or_false] at hr
+    rcases hr with rfl | rfl
+    · exact l2
+    · exact r2
+  · intro _ e he'
+    rw [hview, hlay, List.mem_append] at he'
+    simp only [covered, kindRegs, List.any_cons, List.any_nil, Bool.or_false, Bool.or_eq_true, Bool.and_eq_true,
+      decide_eq_true_eq, hoff]
+    rcases he' with h | h
+    · left
+      have := l3 e h
+      omega
+    · right
+      rw [hRlay] at h
+      simp only [shift, List.mem_map] at h
+      obtain ⟨e', he', rfl⟩ := h
+      have := r3 e' he'
+      simp only
+      omega
+
+/-- one- and two-element lists (the `n < 2` and `n == 2` special cases of the Go code): finitely many, checked by evaluation -/
+theorem one_sound (a : Scalar) :
+    Sound (getTypeInfo (alignUp (natEnd [a] 0) (maxAlign [a])) (maxAlign [a]) [a])
+      ⟨alignUp (natEnd [a] 0) (maxAlign [a]), maxAlign [a], [a], natLayout [a] 0⟩ := by
+  cases a <;> decide
+
+theorem two_sound (a b : Scalar) :
+    Sound (getTypeInfo (alignUp (natEnd [a, b] 0) (maxAlign [a, b])) (maxAlign [a, b]) [a, b])
+      ⟨alignUp (natEnd [a, b] 0) (maxAlign [a, b]), maxAlign [a, b], [a, b], natLayout [a, b] 0⟩ := by
+  cases a <;> cases b <;> decide
+
+theorem natEnd3_ff (c : Scalar) (r : List Scalar) : 8 < natEnd (.f32 :: .f32 :: c :: r) 0 := by
+  simp only [natEnd]
+  have h1 := natEnd_ge r (alignUp (alignUp (alignUp 0 Scalar.f32.size + Scalar.f32.size) Scalar.f32.size + Scalar.f32.size) c.size + c.size)
+  have h2 := alignUp_ge (alignUp (alignUp 0 Scalar.f32.size + Scalar.f32.size) Scalar.f32.size + Scalar.f32.size) c
+  have h3 := size_pos c
+  have h4 : alignUp (alignUp 0 Scalar.f32.size + Scalar.f32.size) Scalar.f32.size + Scalar.f32.size = 8 := by decide
+  omega
+
+/-- **`TypeInfoAmd64.GetTypeInfo` is sound on every naturally laid out scalar list** (any length) -/
+theorem getTypeInfo_sound (types : List Scalar) (size al : Nat)
+    (hal : al = maxAlign types) (hsz : size = alignUp (natEnd types 0) al) (h0 : size ≠ 0) :
+    Sound (getTypeInfo size al types) ⟨size, al, types, natLayout types 0⟩ := by
+  match types with
+  | [] => subst hal; subst hsz; exact absurd (by decide) h0
+  | [a] => subst hal; subst hsz; exact one_sound a
+  | [a, b] => subst hal; subst hsz; exact two_sound a b
+  | a :: b :: c :: r =>
+    have halc : al = 1 ∨ al = 2 ∨ al = 4 ∨ al = 8 := hal ▸ maxAlign_cases _
+    have hpos : 0 < al := by omega
+    have hge := le_alignUp (natEnd (a :: b :: c :: r) 0) al hpos
+    have hlen : (a :: b :: c :: r).length ≥ 2 := by simp
+    unfold getTypeInfo
+    rw [if_pos hlen]
+    by_cases h16 : size > 16
+    · rw [if_pos h16]
+      refine ⟨?_, by simp [kindRegs], fun h => absurd rfl h⟩
+      simp only [kindImage, regImage, classifyAgg]
+      rw [if_neg h0, if_pos h16]
+    · rw [if_neg h16]
+      by_cases h8 : size ≤ 8
+      · rw [if_pos h8]
+        have hnff : ¬ (a = .f32 ∧ b = .f32) := by
+          rintro ⟨rfl, rfl⟩
+          have := natEnd3_ff c r
+          omega
+        have hpk : smallClassify size (a :: b :: c :: r) = .coerce (.int size) := by
+          unfold smallClassify
+          split
+          · rename_i heq
+            simp only [List.cons.injEq] at heq
+            exact absurd ⟨heq.1, heq.2.1⟩ hnff
+          · rfl
+        rw [hpk]
+        have hfit : natEnd (a :: b :: c :: r) 0 ≤ 8 := by omega
+        have hall : ∀ e ∈ natLayout (a :: b :: c :: r) 0, e.1 / 8 = 0 := by
+          intro e he
+          have := natLayout_bounds _ 0 e he
+          have := size_pos e.2
+          omega
+        have hcls : ebClass (natLayout (a :: b :: c :: r) 0) 0 = clsList (a :: b :: c :: r) := by
+          rw [ebClass_in _ 0 hall, natLayout_types]
+        have hns : clsList (a :: b :: c :: r) ≠ .sse := by
+          intro h
+          have := fit8_allSSE _ hfit hlen h
+          simp at this
+        refine ⟨?_, ?_, ?_⟩
+        · rw [regImage_one _ _ _ _ h0 h8]
+          simp only [hcls]
+          have hnn := clsList_cons_ne_noClass a (b :: c :: r)
+          cases hc : clsList (a :: b :: c :: r) <;> simp_all [kindImage, kindRegs, regCls, RegTy.isSSE]
+        · intro r' hr'
+          simp only [kindRegs, List.mem_cons, List.mem_nil_iff, or_false] at hr'
+          subst hr'
+          simpa [RegTy.bytes] using h8
+        · intro _ e he
+          have := natLayout_bounds _ 0 e he
+          simp [covered, kindRegs, RegTy.bytes]
+          omega
+      · rw [if_neg h8]
+        exact splitClassify_sound _ size al hal hsz (by omega) (by omega)
+
+theorem classifyV_sound (v : View) (hn : v.natural) (isRet : Bool) : Sound (classifyV v isRet) v := by
+  obtain ⟨size, al, types, elems⟩ := v
+  obtain ⟨h1, h2, h3⟩ := hn
+  simp only at h1 h2 h3
+  subst h1
+  unfold classifyV
+  by_cases h0 : size = 0
+  · simp only [h0, if_true]
+    have hal := maxAlign_cases types
+    have hge := le_alignUp (natEnd types 0) al (by omega)
+    have ht : types = [] := by
+      cases types with
+      | nil => rfl
+      | cons s r => have := natEnd_cons_gt s r 0; omega
+    subst ht
+    cases isRet <;> simp [Sound, kindImage, kindRegs, regImage, classifyAgg, natLayout]
+  · simp only [h0, if_false]
+    exact getTypeInfo_sound types size al h3 h2 h0
+
+/-! ## flat structs are always naturally laid out -/
+
+theorem elemsL_scalars (fs : List Scalar) (cur : Nat) : elemsL (fs.map .sc) cur = natLayout fs cur := by
+  induction fs generalizing cur with
+  | nil => simp [elemsL, natLayout]
+  | cons s r ih => simp [elemsL, natLayout, CType.elems, CType.align, CType.size, shift, ih]
+
+theorem endL_scalars (fs : List Scalar) (cur : Nat) : endL (fs.map .sc) cur = natEnd fs cur := by
+  induction fs generalizing cur with
+  | nil => simp [endL, natEnd]
+  | cons s r ih => simp [endL, natEnd, CType.align, CType.size, ih]
+
+theorem alignL_scalars (fs : List Scalar) : alignL (fs.map .sc) = maxAlign fs := by
+  induction fs with
+  | nil => simp [alignL, maxAlign]
+  | cons s r ih => simp [alignL, maxAlign, CType.align, ih]
+
+theorem flattenL_scalars (fs : List Scalar) : flattenL (fs.map .sc) = fs := by
+  induction fs with
+  | nil => simp [flattenL]
+  | cons s r ih => simp [flattenL, CType.flatten, ih]
+
+theorem natural_flat (fs : List Scalar) : (CType.struct (fs.map .sc)).view.natural := by
+  simp [View.natural, CType.view, CType.elems, CType.size, CType.align, CType.flatten,
+    elemsL_scalars, endL_scalars, alignL_scalars, flattenL_scalars]
+
+/-! ## placement: per-parameter classification followed by the scalar convention vs the sequential psABI assignment -/
+
+def St.ok (st : St) : Prop := st.gpr ≤ 6 ∧ st.sse ≤ 8
+
+theorem imageOfClasses_fst (cs : List Class) (k : Nat) : (imageOfClasses cs k).map (·.1) = cs := by
+  induction cs generalizing k with
+  | nil => simp [imageOfClasses]
+  | cons c r ih => simp [imageOfClasses, ih]
+
+/-- what `regImage v = .regs img` says about `classifyAgg` -/
+theorem regImage_regs (v : View) (img : List (Class × Nat)) (h : regImage v = .regs img) (hne : img ≠ []) :
+    classifyAgg v.size v.elems = .regs (img.map (·.1)) ∧ (v.size + 7) / 8 = img.length := by
+  unfold regImage at h
+  cases hc : classifyAgg v.size v.elems with
+  | none => rw [hc] at h; simp only [Image.regs.injEq] at h; exact absurd h.symm hne
+  | memory => rw [hc] at h; simp at h
+  | regs cs =>
+    rw [hc] at h
+    simp only [Image.regs.injEq] at h
+    subst h
+    rw [imageOfClasses_fst]
+    refine ⟨rfl, ?_⟩
+    unfold classifyAgg at hc
+    split at hc
+    · simp at hc
+    · split at hc
+      · simp at hc
+      · simp only [ArgClass.regs.injEq] at hc
+        have := congrArg List.length hc
+        simp at this
+        have h2 : (imageOfClasses cs 0).length = cs.length := by
+          have := congrArg List.length (imageOfClasses_fst cs 0)
+          simpa using this
+        omega
+
+theorem alignUp_mul8 (x : Nat) : alignUp (alignUp x 8 + 8) 8 = alignUp x 8 + 8 := by unfold alignUp; omega
+
+/-- ONE register of class `regCls r`: scalar convention = psABI (no hypothesis on free registers needed) -/
+theorem place_single (r : RegTy) (v : View) (st : St) (hst : st.ok) (hal : v.align ≤ 8)
+    (himg : regImage v = .regs [(regCls r, 0)]) :
+    ccArgs [.scalar r] st = placeArg v st := by
+  obtain ⟨hc, hn⟩ := regImage_regs v _ himg (by simp)
+  simp only [List.map_cons, List.map_nil, List.length_cons, List.length_nil] at hc hn
+  obtain ⟨hg, hs⟩ := hst
+  have hsz8 : alignUp v.size 8 = 8 := by unfold alignUp; omega
+  have hmax : max 8 v.align = 8 := by omega
+  have hr1 : List.range 1 = [0] := by decide
+  unfold placeArg
+  rw [hc]
+  simp only [ccArgs, ccArg, List.append_nil]
+  cases hr : r.isSSE
+  · simp only [regCls, hr, Bool.false_eq_true, if_false, fits, countInt, countSse, assignRegs, toStack, hn, hr1,
+      hmax, hsz8]
+    by_cases h : st.gpr < 6
+    · have : st.gpr + 1 ≤ 6 := by omega
+      simp [h, this, hs]
+    · have : ¬ st.gpr + 1 ≤ 6 := by omega
+      simp [h, this]
+  · simp only [regCls, hr, if_true, fits, countInt, countSse, assignRegs, toStack, hn, hr1, hmax, hsz8]
+    by_cases h : st.sse < 8
+    · have : st.sse + 1 ≤ 8 := by omega
+      simp [h, this, hg]
+    · have : ¬ st.sse + 1 ≤ 8 := by omega
+      simp [h, this]
+
+/-- TWO registers: equal when both fit, or when neither eightbyte can get a register -/
+theorem place_double (r1 r2 : RegTy) (v : View) (st : St) (o : Nat) (hst : st.ok) (hal : v.align ≤ 8)
+    (himg : regImage v = .regs [(regCls r1, 0), (regCls r2, o)])
+    (hns : argNoSplit v st = true) :
+    ccArgs [.scalar r1, .scalar r2] st = placeArg v st := by
+  obtain ⟨hc, hn⟩ := regImage_regs v _ himg (by simp)
+  simp only [List.map_cons, List.map_nil, List.length_cons, List.length_nil] at hc hn
+  obtain ⟨hg, hs⟩ := hst
+  have hsz8 : alignUp v.size 8 = 16 := by unfold alignUp; omega
+  have hmax : max 8 v.align = 8 := by omega
+  have hr2 : List.range 2 = [0, 1] := by decide
+  unfold argNoSplit at hns
+  rw [hc] at hns
+  unfold placeArg
+  rw [hc]
+  have ha := alignUp_mul8 st.stack
+  cases hr1 : r1.isSSE <;> cases hr2' : r2.isSSE <;>
+    simp only [regCls, hr1, hr2', Bool.false_eq_true, if_false, if_true, fits, countInt, countSse, assignRegs, toStack,
+      hn, hr2, hmax, hsz8, exhausted, List.all_cons, List.all_nil] at hns ⊢ <;>
+    simp only [ccArgs, ccArg, hr1, hr2', Bool.false_eq_true, if_false, if_true, List.append_nil] <;>
+    simp at hns ⊢
+  · by_cases hg6 : st.gpr < 6 <;> by_cases hg5 : st.gpr + 1 < 6 <;>
+      simp only [*, if_true, if_false] <;>
+      first
+        | (exfalso; omega)
+        | (split <;> first | (exfalso; simp only [and_true, true_and] at *; omega) | (simp [ha]; try omega))
+  · by_cases hg6 : st.gpr < 6 <;> by_cases hs8 : st.sse < 8 <;>
+      simp only [*, if_true, if_false] <;>
+      first
+        | (exfalso; omega)
+        | (split <;> first | (exfalso; simp only [and_true, true_and] at *; omega) | (simp [ha]; try omega))
+  · by_cases hg6 : st.gpr < 6 <;> by_cases hs8 : st.sse < 8 <;>
+      simp only [*, if_true, if_false] <;>
+      first
+        | (exfalso; omega)
+        | (split <;> first | (exfalso; simp only [and_true, true_and] at *; omega) | (simp [ha]; try omega))
+  · by_cases hs8 : st.sse < 8 <;> by_cases hs7 : st.sse + 1 < 8 <;>
+      simp only [*, if_true, if_false] <;>
+      first
+        | (exfalso; omega)
+        | (split <;> first | (exfalso; simp only [and_true, true_and] at *; omega) | (simp [ha]; try omega))
+
+theorem natural_align (v : View) (hn : v.natural) : v.align = 1 ∨ v.align = 2 ∨ v.align = 4 ∨ v.align = 8 := by
+  obtain ⟨_, _, h3⟩ := hn
+  rw [h3]; exact maxAlign_cases _
+
+theorem place_none (v : View) (st : St) (hst : st.ok) (himg : regImage v = .regs []) : placeArg v st = ([], st) := by
+  unfold regImage at himg
+  unfold placeArg
+  cases hc : classifyAgg v.size v.elems with
+  | none => rfl
+  | memory => rw [hc] at himg; simp at himg
+  | regs cs =>
+    rw [hc] at himg
+    simp only [Image.regs.injEq] at himg
+    have : cs = [] := by
+      cases cs with
+      | nil => rfl
+      | cons c r => simp [imageOfClasses] at himg
+    subst this
+    obtain ⟨hg, hs⟩ := hst
+    simp [fits, countInt, countSse, assignRegs, hg, hs]
+
+theorem place_memory (v : View) (st : St) (himg : regImage v = .memory) :
+    ccArgs [.byval v.size v.align] st = placeArg v st := by
+  unfold regImage at himg
+  unfold placeArg
+  cases hc : classifyAgg v.size v.elems with
+  | none => rw [hc] at himg; simp at himg
+  | memory => simp [ccArgs, ccArg]
+  | regs cs => rw [hc] at himg; simp at himg
+
+theorem smallClassify_ne (size : Nat) (types : List Scalar) :
+    smallClassify size types ≠ .direct ∧ smallClassify size types ≠ .void := by
+  unfold smallClassify; split <;> simp
+
+theorem getTypeInfo_direct (size al : Nat) (types : List Scalar) (h : getTypeInfo size al types = .direct) :
+    types.length < 2 := by
+  unfold getTypeInfo at h
+  split at h
+  · exfalso
+    split at h
+    · simp at h
+    · split at h
+      · exact (smallClassify_ne size types).1 h
+      · split at h
+        · split at h
+          · simp at h
+          · simp [splitClassify] at h
+        · simp [splitClassify] at h
+  · omega
+
+theorem getTypeInfo_ne_void (size al : Nat) (types : List Scalar) : getTypeInfo size al types ≠ .void := by
+  intro h
+  unfold getTypeInfo at h
+  split at h
+  · split at h
+    · simp at h
+    · split at h
+      · exact (smallClassify_ne size types).2 h
+      · split at h
+        · split at h
+          · simp at h
+          · simp [splitClassify] at h
+        · simp [splitClassify] at h
+  · simp at h
+
+/-- **one parameter**: llgo's per-parameter lowering followed by the scalar convention puts the parameter
+    exactly where the psABI does, provided the parameter is not split (`argNoSplit`) -/
+theorem placeArg_eq (v : View) (st : St) (hst : st.ok) (hn : v.natural) (hns : argNoSplit v st = true) :
+    ccArgs (lowerParamV v) st = placeArg v st := by
+  have hs := classifyV_sound v hn false
+  have hal : v.align ≤ 8 := by have := natural_align v hn; omega
+  unfold lowerParamV
+  cases hk : classifyV v false with
+  | void =>
+    rw [hk] at hs
+    have himg : regImage v = .regs [] := by simpa [kindImage, kindRegs] using hs.1.symm
+    simp only [ccArgs]
+    exact (place_none v st hst himg).symm
+  | memory =>
+    rw [hk] at hs
+    have himg : regImage v = .memory := by simpa [kindImage] using hs.1.symm
+    exact place_memory v st himg
+  | coerce r =>
+    rw [hk] at hs
+    have himg : regImage v = .regs [(regCls r, 0)] := by simpa [kindImage, kindRegs] using hs.1.symm
+    exact place_single r v st hst hal himg
+  | coerce2 r1 r2 =>
+    rw [hk] at hs
+    have himg : regImage v = .regs [(regCls r1, 0), (regCls r2, off2 r1 r2)] := by
+      simpa [kindImage, kindRegs] using hs.1.symm
+    exact place_double r1 r2 v st (off2 r1 r2) hst hal himg hns
+  | direct =>
+    rw [hk] at hs
+    have hlen : v.types.length < 2 := by
+      unfold classifyV at hk
+      split at hk
+      · simp at hk
+      · exact getTypeInfo_direct _ _ _ hk
+    obtain ⟨h1, h2, h3⟩ := hn
+    have himg := hs.1.symm
+    simp only [kindImage, kindRegs] at himg
+    match hty : v.types, hlen with
+    | [], _ =>
+      rw [hty] at h1
+      simp only [natLayout] at h1
+      rw [h1] at himg
+      simp only [List.map_nil, ccArgs] at himg ⊢
+      exact (place_none v st hst himg).symm
+    | [s], _ =>
+      rw [hty] at h1
+      have h0 : alignUp 0 s.size = 0 := by
+        rcases size_cases s with h | h | h | h <;> rw [h] <;> decide
+      simp only [natLayout, h0] at h1
+      rw [h1] at himg
+      simp only [List.map_cons, List.map_nil] at himg ⊢
+      exact place_single s.regTy v st hst hal himg
+
+theorem assignRegs_state (cs : List Class) (st : St) :
+    (assignRegs cs st).2 = { gpr := st.gpr + countInt cs, sse := st.sse + countSse cs, stack := st.stack } := by
+  induction cs generalizing st with
+  | nil => simp [assignRegs, countInt, countSse]
+  | cons c r ih =>
+    cases c <;> simp only [assignRegs, ih] <;> simp [countInt, countSse, List.filter] <;> omega
+
+theorem placeArg_ok (v : View) (st : St) (hst : st.ok) : (placeArg v st).2.ok := by
+  unfold placeArg
+  cases classifyAgg v.size v.elems with
+  | none => exact hst
+  | memory => exact hst
+  | regs cs =>
+    simp only
+    split
+    · rename_i hf
+      rw [assignRegs_state]
+      simp only [fits, Bool.and_eq_true, decide_eq_true_eq] at hf
+      exact hf
+    · exact hst
+
+/-- **the whole parameter list**, by induction with the register/stack state as invariant -/
+theorem placeArgs_eq (vs : List View) (st : St) (hst : st.ok) (hn : ∀ v ∈ vs, v.natural)
+    (hns : noSplitArgs vs st = true) : implPlaceArgs vs st = placeArgs vs st := by
+  induction vs generalizing st with
+  | nil => rfl
+  | cons v r ih =>
+    simp only [noSplitArgs, Bool.and_eq_true] at hns
+    have h1 := placeArg_eq v st hst (hn v (by simp)) hns.1
+    simp only [implPlaceArgs, placeArgs]
+    rw [h1]
+    rw [ih (placeArg v st).2 (placeArg_ok v st hst) (fun x hx => hn x (by simp [hx])) hns.2]
+
+theorem count_le_length (cs : List Class) : countInt cs + countSse cs ≤ cs.length := by
+  induction cs with
+  | nil => simp [countInt, countSse]
+  | cons c r ih => cases c <;> simp [countInt, countSse, List.filter] at ih ⊢ <;> omega
+
+theorem classifyAgg_len (size : Nat) (elems : List Elem) (cs : List Class) (h : classifyAgg size elems = .regs cs) :
+    cs.length ≤ 2 := by
+  unfold classifyAgg at h
+  split at h
+  · simp at h
+  · split at h
+    · simp at h
+    · simp only [ArgClass.regs.injEq] at h
+      rw [← h]; simp; omega
+
+/-- results: RAX/RDX, XMM0/XMM1 in class order, or `sret` -/
+theorem implRet_eq (r : Option View) (hn : ∀ v ∈ r, v.natural) : implRet r = placeRet r := by
+  cases r with
+  | none => rfl
+  | some v =>
+    have hnv := hn v (by simp)
+    have hs := classifyV_sound v hnv true
+    have hal : v.align ≤ 8 := by have := natural_align v hnv; omega
+    have hok : (⟨0, 0, 0⟩ : St).ok := by simp [St.ok]
+    -- at the empty state every register image fits
+    have hfit : ∀ cs, classifyAgg v.size v.elems = .regs cs → fits cs ⟨0, 0, 0⟩ = true := by
+      intro cs hc
+      have := classifyAgg_len _ _ _ hc
+      have := count_le_length cs
+      simp [fits]; omega
+    have hnsplit : argNoSplit v ⟨0, 0, 0⟩ = true := by
+      unfold argNoSplit
+      cases hc : classifyAgg v.size v.elems with
+      | none => rfl
+      | memory => rfl
+      | regs cs => simp [hfit cs hc]
+    have hspec : placeRet (some v) =
+        (match classifyAgg v.size v.elems with
+         | .memory => RetPlace.sret
+         | _ => RetPlace.regs (placeArg v ⟨0, 0, 0⟩).1) := by
+      unfold placeRet placeArg
+      cases hc : classifyAgg v.size v.elems with
+      | none => rfl
+      | memory => rfl
+      | regs cs => simp [hfit cs hc]
+    rw [hspec]
+    unfold implRet lowerRetV
+    cases hk : classifyV v true with
+    | void =>
+      rw [hk] at hs
+      have himg : regImage v = .regs [] := by simpa [kindImage, kindRegs] using hs.1.symm
+      have hp := place_none v ⟨0, 0, 0⟩ hok himg
+      have hne : classifyAgg v.size v.elems ≠ .memory := by
+        intro h; simp [regImage, h] at himg
+      cases hc : classifyAgg v.size v.elems <;> simp_all [ccArgs]
+    | memory =>
+      rw [hk] at hs
+      have himg : regImage v = .memory := by simpa [kindImage] using hs.1.symm
+      have : classifyAgg v.size v.elems = .memory := by
+        unfold regImage at himg
+        cases hc : classifyAgg v.size v.elems <;> simp_all
+      simp [this]
+    | coerce r =>
+      rw [hk] at hs
+      have himg : regImage v = .regs [(regCls r, 0)] := by simpa [kindImage, kindRegs] using hs.1.symm
+      have hp := place_single r v ⟨0, 0, 0⟩ hok hal himg
+      have hne : classifyAgg v.size v.elems ≠ .memory := by
+        intro h; simp [regImage, h] at himg
+      simp only [List.map_cons, List.map_nil]
+      rw [hp]
+      cases hc : classifyAgg v.size v.elems <;> simp_all
+    | coerce2 r1 r2 =>
+      rw [hk] at hs
+      have himg : regImage v = .regs [(regCls r1, 0), (regCls r2, off2 r1 r2)] := by
+        simpa [kindImage, kindRegs] using hs.1.symm
+      have hp := place_double r1 r2 v ⟨0, 0, 0⟩ (off2 r1 r2) hok hal himg hnsplit
+      have hne : classifyAgg v.size v.elems ≠ .memory := by
+        intro h; simp [regImage, h] at himg
+      simp only [List.map_cons, List.map_nil]
+      rw [hp]
+      cases hc : classifyAgg v.size v.elems <;> simp_all
+    | direct =>
+      rw [hk] at hs
+      have himg := hs.1.symm
+      simp only [kindImage, kindRegs] at himg
+      have hne : classifyAgg v.size v.elems ≠ .memory := by
+        intro h; simp [regImage, h] at himg
+      have hlen : v.size = 0 ∨ v.types.length < 2 := by
+        unfold classifyV at hk
+        split at hk
+        · left; assumption
+        · right; exact getTypeInfo_direct _ _ _ hk
+      obtain ⟨h1, h2, h3⟩ := hnv
+      have hlen' : v.types.length < 2 := by
+        rcases hlen with h | h
+        · have hge := le_alignUp (natEnd v.types 0) v.align (by omega)
+          cases hty : v.types with
+          | nil => simp
+          | cons s r => rw [hty] at hge h2; have := natEnd_cons_gt s r 0; omega
+        · exact h
+      match hty : v.types, hlen' with
+      | [], _ =>
+        rw [hty] at h1
+        simp only [natLayout] at h1
+        rw [h1] at himg
+        simp only [List.map_nil] at himg
+        have hp := place_none v ⟨0, 0, 0⟩ hok himg
+        cases hc : classifyAgg v.size v.elems <;> simp_all [ccArgs]
+      | [s], _ =>
+        rw [hty] at h1
+        have h0 : alignUp 0 s.size = 0 := by
+          rcases size_cases s with h | h | h | h <;> rw [h] <;> decide
+        simp only [natLayout, h0] at h1
+        rw [h1] at himg
+        simp only [List.map_cons, List.map_nil] at himg ⊢
+        have hp := place_single s.regTy v ⟨0, 0, 0⟩ hok hal himg
+        rw [hp]
+        cases hc : classifyAgg v.size v.elems <;> simp_all
 
 end LlgoVerif.CAbi
